@@ -113,6 +113,8 @@ class C01(CheckBase):
             body = s.body(rendered, vol, f)
             cmdk = rng.choice(['type-binary', 'type-binary', 'type', 'list', 'dump'])
             form = rng.choice(['full', 'dir', 'bare', 'ctx'])
+            if form == 'bare' and f.name.startswith(b'-'):
+                form = 'dir'      # a bare argument starting with '-' is an option by ordinary command-line rules
             g = []
             lab = vol.label or ''
             if lab == 'A' and rng.chance(0.5):
